@@ -86,6 +86,32 @@ def run(ck):
     ini_rules(ck, ini)
     one_line(ck, one)
     handler_protocol(ck)
+    per_call_answers(ck, (ini, one))
+
+
+def per_call_answers(ck, roots):
+    """what a key configures is decided per handler: nothing on the way from configure() to the sinks answers from a
+    function-local static that was initialised from the first caller's argument (stdout's terminal test reused for stderr)"""
+    F = ck.facts
+    ck.rule("C19-O5", "no library function keeps a function-local static initialised from its own parameter (one shared answer for every stream / mode / name, fixed by the first caller)")
+    # handlers are constructed through QSharedPointer<T>::create (a template the call graph does not enter), so the scope is every
+    # function of the library: the rule is a global one
+    ids = [f.id for f in F.fns.values() if f.body is not None and "/src/qtlogger/" in (f.file or "")]
+    n = 0
+    bad = 0
+    for i in sorted(ids):
+        f = F.fns.get(i)
+        if f is None or f.body is None:
+            continue
+        n += 1
+        for d, v in statics_from_params(f):
+            bad += 1
+            ck.touch(f)
+            ck.ob("C19-O5", sitestr(f, d), False, "%s(): `static %s` is initialised from the parameter of the first call and returned to every later caller: the answer for one stream / mode is reused for the other "
+                  "(e.g. stderr coloured according to whether stdout is a terminal)" % (f.name.split("::")[-1], v.get("name")), key="static-from-param|%s" % f.name.split("::")[-1])
+    ck.require(n >= 250, "only %d library functions examined (307 on the tree the rule was written for)" % n)
+    if not bad:
+        ck.ob("C19-O5", "(all library functions)", True, "%d functions: no function-local static depends on a parameter" % n, key="static-from-param|none")
 
 
 def settings_reads(fn):
